@@ -132,6 +132,9 @@ def main(chk):
         calls.append({'id': 'c:%s.run' % c['id'], 'api': 'run', 'case': c})
         calls.append({'id': 'c:%s.sem' % c['id'], 'api': 'semantic_analysis', 'case': c})
     units = k2.pmap('harness.apicalls:observe', calls)
+    chk.add('skipped_pysdmx_input', len([u for u in units if 'skip' in u]))
+    calls = [c for c, u in zip(calls, units) if 'skip' not in u]
+    units = [u for u in units if 'skip' not in u]
     for u in units:
         if 'machinery' in u:
             raise RuntimeError(u['machinery'])
